@@ -9,6 +9,14 @@ CLAIMED = {
 CLAIMED["C15"] = ("dotted locations: annotate_ancestry / find_in_ast / RewriteAtQuery executed symbolically on hand-built modules whose identifiers and "
     "search segments are solver variables (the solver chooses which names coincide across scopes), judged against an independent resolver over ast",
     "DESIGN.md#c15")
+_RT = ("emit.* -> parse.* of the real code executed symbolically on an IR whose shape is concrete and whose prose / int / str / bool "
+       "content are solver variables; independent interface comparator; known-finding tolerances per (kind, difference code, feature)")
+CLAIMED["C01"] = ("docstring round trip in three styles: " + _RT, "DESIGN.md#c01")
+CLAIMED["C02"] = ("config-class round trip at AST level (symbolic) and through unparse/re-parse (finite, solver-enumerated): " + _RT, "DESIGN.md#c02")
+CLAIMED["C03"] = ("function/method round trip over the emitter option grid: " + _RT, "DESIGN.md#c03")
+CLAIMED["C04"] = ("argparse-function round trip on the argparse-expressible part of the domain: " + _RT, "DESIGN.md#c04")
+CLAIMED["C05"] = ("chains of two and three representation kinds executed directly and judged against the start IR: " + _RT, "DESIGN.md#c05")
+CLAIMED["C08"] = ("second and third emission compared (string / structural equality) with symbolic content: " + _RT, "DESIGN.md#c08")
 NA = {
     "C19": "gen: every data path crosses importlib / inspect.getsource / compile+exec / file output, no symbolic data path is left; what remains is enumeration of a few concrete configurations, which is not this technique (DESIGN.md §C19)",
 }
